@@ -7,7 +7,7 @@ use crate::c03::monitor;
 use crate::problems::Prob;
 use crate::regress;
 use crate::report::{is_thorough, CaseOut, Report, Violation};
-use crate::run::{mname, run_with, Cfg, Outcome, M6};
+use crate::run::{mname, run_with, run_with2, Cfg, Outcome, M6};
 use ivp::prelude::*;
 use serde_json::{json, Value};
 use std::io::{BufRead, BufReader, Write};
@@ -84,6 +84,8 @@ struct Fault {
     at: u64,
     kind: usize,
     persistent: bool,
+    /// the fault hits an RHS call made while the finite-difference Jacobian is formed
+    in_jac: bool,
 }
 
 fn cfg_of(b: &Base) -> (Prob, Cfg) {
@@ -98,7 +100,8 @@ fn cfg_of(b: &Base) -> (Prob, Cfg) {
 
 fn exec(b: &Base, faults: &[Fault], key: &str) -> CaseOut {
     let (p, c) = cfg_of(b);
-    let fl = faults.to_vec();
+    let fl: Vec<Fault> = faults.iter().filter(|f| !f.in_jac).cloned().collect();
+    let fj: Vec<Fault> = faults.iter().filter(|f| f.in_jac).cloned().collect();
     let ans = move |i: u64, _t: f64, _y: &[f64], d: &mut [f64]| {
         for f in &fl {
             if i == f.at || (f.persistent && i >= f.at) {
@@ -108,9 +111,18 @@ fn exec(b: &Base, faults: &[Fault], key: &str) -> CaseOut {
             }
         }
     };
-    let r = if faults.is_empty() { run_with(&p, &c, None, None) } else { run_with(&p, &c, Some(&ans), None) };
+    let ansj = move |i: u64, _t: f64, _y: &[f64], d: &mut [f64]| {
+        for f in &fj {
+            if i == f.at || (f.persistent && i >= f.at) {
+                for v in d.iter_mut() {
+                    *v = KINDS[f.kind].1;
+                }
+            }
+        }
+    };
+    let r = if faults.is_empty() { run_with(&p, &c, None, None) } else { run_with2(&p, &c, Some(&ans), Some(&ansj), None) };
     let mut out = CaseOut::default();
-    let fdesc: Vec<Value> = faults.iter().map(|f| json!({"at_call": f.at, "answer": KINDS[f.kind].0, "persistent": f.persistent})).collect();
+    let fdesc: Vec<Value> = faults.iter().map(|f| json!({"at_call": f.at, "answer": KINDS[f.kind].0, "persistent": f.persistent, "during_jacobian_differencing": f.in_jac})).collect();
     let desc = json!({"key": key, "cfg": c.json(&p.name), "faults": fdesc, "outcome": r.outcome_name(), "rhs_calls": r.st.n_ode});
     let mut vs: Vec<(String, String)> = vec![];
     let mut tags = vec![];
@@ -173,7 +185,7 @@ fn exec(b: &Base, faults: &[Fault], key: &str) -> CaseOut {
 }
 
 fn key_of(bi: usize, fs: &[Fault]) -> String {
-    format!("c04:{}:{}", bi, fs.iter().map(|f| format!("{}.{}.{}", f.at, f.kind, f.persistent as u8)).collect::<Vec<_>>().join(","))
+    format!("c04:{}:{}", bi, fs.iter().map(|f| format!("{}.{}.{}.{}", f.at, f.kind, f.persistent as u8, f.in_jac as u8)).collect::<Vec<_>>().join(","))
 }
 
 /// deterministic enumeration of the fault sets of one base configuration
@@ -187,7 +199,16 @@ fn fault_sets(b: &Base, thorough: bool) -> Vec<Vec<Fault>> {
     for kind in 0..KINDS.len() {
         for persistent in [false, true] {
             for k in 0..l1 {
-                v.push(vec![Fault { at: k, kind, persistent }]);
+                v.push(vec![Fault { at: k, kind, persistent, in_jac: false }]);
+            }
+        }
+    }
+    // faults hitting the RHS calls of the finite-difference Jacobian (implicit methods)
+    let lj = nominal.st.n_ode_in_jac.min(if thorough { 1000 } else { 60 });
+    for kind in 0..KINDS.len() {
+        for persistent in [false, true] {
+            for k in 0..lj {
+                v.push(vec![Fault { at: k, kind, persistent, in_jac: true }]);
             }
         }
     }
@@ -197,7 +218,7 @@ fn fault_sets(b: &Base, thorough: bool) -> Vec<Vec<Fault>> {
         for k1 in 0..l2 {
             for k2 in (k1 + 1)..l2 {
                 for (a, bk) in [(0usize, 0usize), (0, 1), (1, 0), (3, 0)] {
-                    v.push(vec![Fault { at: k1, kind: a, persistent: false }, Fault { at: k2, kind: bk, persistent: false }]);
+                    v.push(vec![Fault { at: k1, kind: a, persistent: false, in_jac: false }, Fault { at: k2, kind: bk, persistent: false, in_jac: false }]);
                 }
             }
         }
@@ -274,7 +295,7 @@ pub fn run_check(args: &[String], replay: Option<Value>) -> i32 {
             .filter(|s| !s.is_empty())
             .map(|s| {
                 let p: Vec<&str> = s.split('.').collect();
-                Fault { at: p[0].parse().unwrap(), kind: p[1].parse().unwrap(), persistent: p[2] == "1" }
+                Fault { at: p[0].parse().unwrap(), kind: p[1].parse().unwrap(), persistent: p[2] == "1", in_jac: p.get(3).map(|x| *x == "1").unwrap_or(false) }
             })
             .collect();
         let b = &bases()[bi];
@@ -420,7 +441,7 @@ pub fn run_check(args: &[String], replay: Option<Value>) -> i32 {
         "dimensions": {"method": M6.iter().map(|m| mname(*m)).collect::<Vec<_>>(), "problem": (0..NPROB).map(|k| problem(k, false).0.name).collect::<Vec<_>>(),
             "direction": ["forward", "backward(reflected)"], "max_steps": ["none", "40"], "min_step": ["none", "1e-3 (Radau, BDF)"],
             "fault_answer": KINDS.iter().map(|k| k.0).collect::<Vec<_>>(), "fault_mode": ["one-shot", "persistent from call k on"],
-            "fault_call_index": if thorough { "every k < min(L, 4000) of the nominal run" } else { "every k < min(L, 150) of the nominal run" },
+            "fault_call_index": if thorough { "every k < min(L, 4000) of the nominal run; every k < min(Lj, 1000) of the RHS calls made while differencing the Jacobian" } else { "every k < min(L, 150) of the nominal run; every k < min(Lj, 60) of the RHS calls made while differencing the Jacobian" },
             "deviation_bound": if thorough { "d <= 2 (second fault at every later index among the first 40 calls)" } else { "d <= 1" }}}]);
     let _ = nw;
     rep.absorb(outs.into_iter().map(|o| o.2).collect());
